@@ -183,24 +183,53 @@ class NumpyGate(Seam):
         self.last_site = None
 
     def wrap(self, real, name):
-        gate = self
+        return ProxyCall(real, name, self)
 
-        def through_proxy(*a, **k):
-            if gate.tracking:
-                gate.calls += 1
-                if gate.arm_nth is not None and gate.calls == gate.arm_nth:
-                    if in_cleanup(sys._getframe(1)):
-                        gate.skipped_in_cleanup += 1      # stays pending: reported as "did not fire"
-                    else:
-                        gate.arm_nth = None
-                        gate.fired += 1
-                        gate.last_site = name
-                        raise gate.arm_exc
-            return real(*a, **k)
-        through_proxy.__name__ = getattr(real, "__name__", name)
-        through_proxy.__doc__ = getattr(real, "__doc__", None)
-        through_proxy.__wrapped__ = real
-        return through_proxy
+
+class ProxyCall:
+    """What the library gets for `np.<function>`: calls the real thing; while a library operation is tracked it counts
+    as one call of the seam np.* and may fail instead.  It copies and pickles like the real attribute would: a bound
+    method of numpy's global RandomState (np.random.normal, ...) takes a clone of that RandomState along, exactly as
+    `copy.deepcopy(np.random.normal)` does."""
+
+    def __init__(self, real, name, gate):
+        self.real, self.name, self.gate = real, name, gate
+        self.__name__ = getattr(real, "__name__", name)
+        self.__doc__ = getattr(real, "__doc__", None)
+        self.__wrapped__ = real
+
+    def __call__(self, *a, **k):
+        gate = self.gate
+        if gate.tracking:
+            gate.calls += 1
+            if gate.arm_nth is not None and gate.calls == gate.arm_nth:
+                if in_cleanup(sys._getframe(1)):
+                    gate.skipped_in_cleanup += 1      # stays pending: reported as "did not fire"
+                else:
+                    gate.arm_nth = None
+                    gate.fired += 1
+                    gate.last_site = self.name
+                    raise gate.arm_exc
+        return self.real(*a, **k)
+
+    def __getattr__(self, attr):          # (only for what is not set above, e.g. __self__ of a bound method)
+        if attr in ("real", "name", "gate"):
+            raise AttributeError(attr)
+        return getattr(self.real, attr)
+
+    def __deepcopy__(self, memo):
+        import copy
+        return ProxyCall(copy.deepcopy(self.real, memo), self.name, self.gate)
+
+    def __copy__(self):
+        return ProxyCall(self.real, self.name, self.gate)
+
+    def __reduce__(self):
+        return (_rebuild_proxycall, (self.real, self.name))
+
+
+def _rebuild_proxycall(real, name):
+    return ProxyCall(real, name, SEAMS.get("np.*") or NumpyGate())
 
 
 _WRAPPABLE = (types.FunctionType, types.BuiltinFunctionType, types.MethodType, types.BuiltinMethodType)
